@@ -411,7 +411,8 @@ class SpecialSources(Suite):
     """stored results at the edge of their kinds - a generated sequence without items (a file of zero bytes), empty
     mappings, lists, arrays and directories - and a source directory that holds the working directory of a resumable
     task that was started and not finished, plus files the library did not write, also for a configuration that was
-    given a namespace or a name of its own: after migration every task that had a
+    given a namespace or a name of its own (among them names that occur again in file extensions: np, n, json), and for a
+    Config object whose parameter-mode chain was looked at before: after migration every task that had a
     result has one in the target with the same value and runs nothing, and no file of the source is touched.
     Runtime check only."""
     name = 'special_sources'
@@ -421,7 +422,9 @@ class SpecialSources(Suite):
         return [dict(drys=d, unfinished=u, stray=st, verbose=v) for d in ([False], [True, False], [False, False])
                 for u in (False, True) for st in (False, True) for v in (False,)] + \
                [dict(drys=[False, False], unfinished=u, stray=False, verbose=False, namespace='top') for u in (False, True)] + \
-               [dict(drys=d, unfinished=False, stray=False, verbose=False, cfgname='exp-factor3') for d in ([False], [True, False])]
+               [dict(drys=d, unfinished=False, stray=False, verbose=False, cfgname='exp-factor3') for d in ([False], [True, False])] + \
+               [dict(drys=[False], unfinished=False, stray=False, verbose=False, cfgname=c) for c in ('np', 'n', 'json', 'p', 'y')] + \
+               [dict(drys=d, unfinished=False, stray=False, verbose=False, preview=True) for d in ([False], [True, False])]
 
     def run_impl(self, case):
         import sys, types
@@ -450,6 +453,11 @@ class SpecialSources(Suite):
                     # what an earlier failed attempt of a directory task left behind
                     (Path('data') / 'empty_dir' / 'exp_error').mkdir()
                     (Path('data') / 'empty_dir' / 'exp_error' / 'partial.txt').write_text('half')
+                if case.get('preview'):
+                    # the Config object that is migrated was used for a look at the parameter-mode chain before (names and keys)
+                    cfg = Config(Path('data'), 'exp.json', namespace=case.get('namespace'), name=case.get('cfgname'))
+                    preview = cfg.chain()
+                    sorted((n, t.name_for_persistence) for n, t in preview.tasks.items())
                 src0 = tree('data')
                 steps = []
                 for dry in case['drys']:
